@@ -57,7 +57,7 @@ func c17B64(r *rand.Rand) Case {
 	return Case{Kind: "b64-dec", Desc: map[string]any{"in": string(in), "ok": err == nil}, Coq: "CB64Dec " + gBytes(in) + " " + obs, Nontrivial: err != nil}
 }
 
-var c17Texts = []string{"v", "", "multi\nline\ntext", "trailing\n", "é世 unicode", "  spaced  ", "a: b", "#hash", "true", "null", "- x", "{}", "tab\there", "'q'", "\"dq\"", "x\n\ny\n"}
+var c17Texts = []string{"v", "", "multi\nline\ntext", "trailing\n", "é世 unicode", "  spaced  ", "a: b", "#hash", "true", "null", "- x", "{}", "tab\there", "'q'", "\"dq\"", "x\n\ny\n", "@echo off\r\nset A=1\r\n", "crlf\r\nthen lf\nend", "lone\rcr"}
 
 type c17Doc struct {
 	m       map[string]any
@@ -86,6 +86,12 @@ func c17GenManifest(r *rand.Rand, malformed bool) c17Doc {
 	}
 	if r.Intn(4) == 0 {
 		d.m["extra"] = map[string]any{"list": []any{1, "two", nil}, "n": 5}
+	}
+	if r.Intn(4) == 0 { // fields outside the data sections are kept as they are, empty mappings and lists included
+		d.m["status"] = map[string]any{}
+		if r.Intn(2) == 0 {
+			d.m["finalizers"] = []any{}
+		}
 	}
 	if kind == "Secret" {
 		d.bk, d.tk = "data", "stringData"
